@@ -2,6 +2,7 @@
 defaults), every single-point mutation (unknown key, missing required key, wrong kind, mixed
 component/composite) is rejected."""
 import copy
+import zlib
 import os
 
 import tomlw
@@ -229,6 +230,12 @@ def mutants(fmt, doc):
             parent = get_at(m, path[:-1])
             parent[path[-1]] = {S: 42, B: "true", LS: "not-an-array"}[node]
             out.append(("retype", table_path(path), m))
+            # ... and the other kinds TOML has: a date/time literal is not a string (nor a boolean), whatever it looks like when printed
+            others = {S: [tomlw.Dt("1979-05-27T07:32:00Z"), tomlw.Dt("1979-05-27"), tomlw.Dt("07:32:00"), 1.5, True, {"value": value}], B: [1, tomlw.Dt("1979-05-27")], LS: [tomlw.Dt("1979-05-27T07:32:00")]}[node]
+            alt = others[zlib.crc32(repr(path).encode()) % len(others)]
+            m = copy.deepcopy(doc)
+            get_at(m, path[:-1])[path[-1]] = alt
+            out.append(("retype-" + ("datetime" if isinstance(alt, tomlw.Dt) else type(alt).__name__), table_path(path), m))
             if node == LS and value:
                 m = copy.deepcopy(doc)
                 get_at(m, path)[0] = 7
@@ -321,7 +328,9 @@ def shard_run(arg):
             doc = gen(FORMATS[fmt], r, [], full=(idx % 5 == 0))
             # metadata may hold anything, including keys that look like schema keys
             text = tomlw.selfcheck(doc, tomlw.doc(doc, inline_depth=r.choice([0, 1, 2, 3])))
-            items = [[t, text, idx % 4 == 0] for t in parse_types(fmt)]
+            # every document goes through one of two routes: the text through toml::from_str, or a file through read_toml_file (what the
+            # runtime and the packaging code use). Valid documents go through both.
+            items = [[t, text, False] for t in parse_types(fmt)] + [[t, text, True] for t in parse_types(fmt)]
             muts = mutants(fmt, doc)
             mtexts = []
             for kind, where, m in muts:
@@ -331,24 +340,23 @@ def shard_run(arg):
                     continue
                 mtexts.append((kind, where, mt))
                 for t in parse_types(fmt):
-                    items.append([t, mt, False])
+                    items.append([t, mt, len(items) % 2 == 1])
             rep = mon.call({"op": "docs", "items": items, "tmp": tmp})
             res = rep["results"]
             want = expected(fmt, doc)
             pos = 0
-            for t in parse_types(fmt):
+            for route in ("", " (read from a file with read_toml_file)"):
+              for t in parse_types(fmt):
                 sh.evaluations += 1
                 x = res[pos]
                 pos += 1
-                case = {"format": fmt, "as": t, "kind": "valid", "text": text}
+                case = {"format": fmt, "as": t, "kind": "valid", "text": text, "via_file": bool(route)}
                 if not x["ok"]:
-                    sh.violation("%s:valid-rejected" % t, "a spec-conforming %s document is rejected as %s: %s\n%s" % (fmt, t, x["err"], text[:500]), case)
+                    sh.violation("%s:valid-rejected" % t, "a spec-conforming %s document is rejected as %s%s: %s\n%s" % (fmt, t, route, x["err"], text[:500]), case)
                     continue
-                if "file_ok" in x and not x["file_ok"]:
-                    sh.violation("%s:file-route" % t, "read_toml_file rejects what toml::from_str accepts", case)
                 got = norm_dump(fmt, x["value"])
                 if not tomlw.same(got, want):
-                    sh.violation("%s:values" % t, "parsed values differ from the document: got %r want %r" % (got, want), case)
+                    sh.violation("%s:values" % t, "parsed values%s differ from the document: got %r want %r" % (route, got, want), case)
             for kind, where, mt in mtexts:
                 for t in parse_types(fmt):
                     sh.evaluations += 1
@@ -368,8 +376,9 @@ def shard_run(arg):
                             continue
                     sh.nontrivial.add((fmt, where, kind))
                     if x["ok"]:
-                        sh.violation("%s:%s:%s" % (t, kind, where), "%s mutant (%s at %s) of a valid %s document is accepted as %s:\n%s"
-                                     % (kind, kind, where, fmt, t, mt[:700]), {"format": fmt, "as": t, "kind": kind, "where": where, "text": mt})
+                        sh.violation("%s:%s:%s" % (t, kind, where), "%s mutant (%s at %s) of a valid %s document is accepted as %s%s:\n%s"
+                                     % (kind, kind, where, fmt, t, " (read from a file with read_toml_file)" if items[pos - 1][2] else "", mt[:700]),
+                                     {"format": fmt, "as": t, "kind": kind, "where": where, "text": mt, "via_file": items[pos - 1][2]})
             if fmt == "layer_toml":
                 layer_api_routes(lmon, work, idx, text, mtexts, sh)
             if idx % 50 == 0:
@@ -407,7 +416,7 @@ def replay(case, work):
         res.rule = "replay of one recorded case"
         return res
     mon = vp.Mon("parse")
-    rep = mon.call({"op": "docs", "items": [[case["as"], case["text"], False]], "tmp": os.path.join(work, "r.toml")})
+    rep = mon.call({"op": "docs", "items": [[case["as"], case["text"], bool(case.get("via_file"))]], "tmp": os.path.join(work, "r.toml")})
     mon.close()
     x = rep["results"][0]
     res.evaluations += 1
